@@ -1,0 +1,107 @@
+//go:build verif
+
+// Contracts for package reconciledloader (properties C01, C02, C06). Comment-only: read by /verif/bin/gsv,
+// never compiled into the package. Clause syntax: /verif/engine/contracts.go; method: /verif/DESIGN.md.
+
+package reconciledloader
+
+//@ -- a CID is "the sum of" some bytes when hashing exactly these bytes under the CID's prefix gives the CID
+//@ fn isSumOf(c ref, data []byte) bool
+
+//@ -- C01: a remote item never carries bytes that do not hash to its own link
+//@ pred good(it remoteItem) := len(it.block) == 0 || isSumOf(it.link, it.block)
+//@ pred allGood() := forall n *remotedLinkedItem :: n != nil ==> good(n.remoteItem)
+//@ -- pool hygiene: an item handed to the pool, or kept only for a retry, holds no block bytes
+//@ pred clean(x *remotedLinkedItem) := x != nil && isalloc(x) && len(x.block) == 0
+//@ pred qinv(rq *remoteQueue) := rq.lastConsumed != nil ==> clean(rq.lastConsumed)
+
+//@ -- sync.Pool, specialised to linkedRemoteItemPool (the only pool of this package): what comes out is what New made or
+//@ -- what some Put put in; every Put of the package is required to put in a clean item (obligation at each call site)
+//@ func std:sync.Pool.Get
+//@   assumed
+//@   modifies alloc
+//@   ensures result != nil && dyntype(result) == typetag("*remotedLinkedItem") && clean(result)
+//@ func std:sync.Pool.Put
+//@   assumed
+//@   params x
+//@   requires dyntype(x) == typetag("*remotedLinkedItem") && clean(x)
+//@   modifies nothing
+//@ func github.com/ipfs/go-cid.Cid.Equals
+//@   assumed
+//@   params o
+//@   modifies nothing
+//@   ensures result == (self == o)
+
+//@ func newRemote
+//@   requires allGood()
+//@   modifies alloc, remotedLinkedItem.next
+//@   ensures result != nil && clean(result) && result.next == nil && allGood()
+
+//@ func freeList
+//@   requires allGood()
+//@   requires forall j int :: 0 <= j && j < len(remoteItems) ==> remoteItems[j] != nil && isalloc(remoteItems[j])
+//@   modifies remotedLinkedItem.remoteItem
+//@   loop 1 invariant allGood()
+//@   ensures allGood()
+
+//@ func remoteQueue.empty
+//@   modifies nothing
+//@   ensures result == (rq.head == nil)
+
+//@ func remoteQueue.first
+//@   modifies nothing
+//@   ensures rq.head == nil ==> len(result.block) == 0
+//@   ensures rq.head != nil ==> result == rq.head.remoteItem
+
+//@ func remoteQueue.retryLast
+//@   modifies rq.head
+//@   ensures old(rq.lastConsumed) != nil ==> rq.head == old(rq.lastConsumed)
+//@   ensures old(rq.lastConsumed) == nil ==> rq.head == old(rq.head)
+
+//@ func remoteQueue.consume
+//@   requires rq.head != nil && isalloc(rq.head) && allGood() && qinv(rq)
+//@   modifies rq.head, rq.lastConsumed, rq.dataSize, remotedLinkedItem.remoteItem
+//@   ensures allGood() && qinv(rq)
+//@   ensures rq.lastConsumed == old(rq.head) && rq.head == old(rq.head.next)
+//@   ensures forall n *remotedLinkedItem :: n != old(rq.head) ==> n.block == old(n.block)
+
+//@ func remoteQueue.clear
+//@   requires allGood() && qinv(rq)
+//@   requires forall n *remotedLinkedItem :: n != nil ==> isalloc(n)
+//@   modifies rq.head, rq.lastConsumed, rq.dataSize, remotedLinkedItem.remoteItem
+//@   loop 1 invariant allGood() && qinv(rq)
+//@   ensures allGood() && rq.head == nil && rq.lastConsumed == nil
+
+//@ func remoteQueue.queue
+//@   requires forall j int :: 0 <= j && j < len(newItems) ==> newItems[j] != nil
+//@   requires rq.head != nil ==> rq.tail != nil
+//@   modifies rq.head, rq.tail, rq.dataSize, remotedLinkedItem.next
+//@   loop 1 invariant rq.head != nil ==> rq.tail != nil
+
+//@ inlineobj ReconciledLoader.remoteQueue ReconciledLoader.pathTracker
+
+//@ -- link metadata as a sequence (graphsync.LinkMetadata; the implementation in package message is under its own contract)
+//@ fn mdLen(md ref) int
+//@ fn mdLink(md ref, i int) ref
+//@ fn mdAction(md ref, i int) graphsync.LinkAction
+//@ func github.com/ipfs/go-graphsync.LinkMetadata.Length
+//@   assumed
+//@   modifies nothing
+//@   ensures result == mdLen(self) && result >= 0
+//@ func github.com/ipfs/go-graphsync.LinkMetadata.Iterate
+//@   assumed
+//@   params iter
+//@   iterates iter(mdLink(self, $i), mdAction(self, $i)) count mdLen(self)
+//@   modifies nothing
+
+//@ -- what the message decoder established (message/v2 fromIPLD, C12): every block is keyed by the CID of its own bytes
+//@ pred blocksOK(blocks) := forall c ref :: c in blocks ==> isSumOf(c, blocks[c])
+
+//@ -- C01: whatever metadata and blocks a response carries, every item queued for the traversal pairs a link with
+//@ -- bytes that hash to that link, or with no bytes at all
+//@ func ReconciledLoader.IngestResponse
+//@   requires rl != nil && rl.signal != nil && rl.lock != nil && allGood() && blocksOK(blocks) && md != nil
+//@   requires rl.remoteQueue.head != nil ==> rl.remoteQueue.tail != nil
+//@   iterloop LinkMetadata.Iterate invariant allGood() && (forall j int :: 0 <= j && j < len(items) ==> items[j] != nil && isalloc(items[j]))
+//@   modifies alloc, remotedLinkedItem.next, remotedLinkedItem.remoteItem, remoteQueue.head, remoteQueue.tail, remoteQueue.dataSize, allmaps("map[cid.Cid]struct{}")
+//@   ensures allGood()
